@@ -55,6 +55,11 @@ CLAIMED = {
    technique="symbolic execution of Numba typed IR + z3 (call-trace equality for the ngram kernels, two-run state equality for multiplicity); CrossHair (z3) over the Python entry points with shimmed numpy/numba",
    text="All five _add_ngram* kernels: for key lengths 0..8 (12 thorough) with symbolic bytes and every ngram >= 1 (n < len concretely, n >= len symbolically up to 2^64-1) the inner adds recorded are exactly the sliding windows / the whole key, with multiplicity 1, on the sketch's own arrays and with the random pointer threaded through. Multiplicity: add(k,v+1) == add(k,v);add(k,1) from an arbitrary state for linear and heavy hitters (v symbolic); for log sketches add(k,2) == add(k,1);add(k,1) via a composition lemma on the real _log_counter (real-idealised) plus the add kernels with _log_counter abstracted. update()/update_ngram()/__getitem__/HyperLogLog ignoring values: CrossHair harnesses over the real methods.",
    note="ngram = 0 is outside the documented domain; general v follows from the v+1 lemma by induction (prose); W harnesses enumerate list/dict shapes up to 3 entries."),
+
+ "C15": dict(engine=W, category="model_checking", design="6 C15",
+   technique="CrossHair symbolic execution (z3) of the real merge() methods under a shimmed numpy/numba environment; every condition must be 'Confirmed over all paths'",
+   text="All five classes: every constructor parameter of both operands symbolic over its documented range (width to 10^6, depth to 64, max_count < 2^64, num_reserved, p, seed < 2^64, heavy-hitter width to 10^5 with enumerated depth/max_key_len and symbolic or default phi), plus all ordered counter-type pairs: merge() raises TypeError exactly when a listed parameter differs; a refused merge reaches no kernel and leaves both operands' attributes and arrays unchanged; an accepted merge calls exactly the right kernel once with self's and other's arrays. Counterexamples are replayed on real sketches (with amplification to adjacent huge max_count values, which is what it takes for two log bases to coincide).",
+   note="Kernels are call recorders here (their behaviour is C01/C02/C03/C09); the shims are an environment model validated by the replays; operands of unrelated types are outside."),
 }
 NA = {}
 ALL = sorted(TITLES)
